@@ -85,8 +85,8 @@ def c02_m_from_timestamp(o):
     dt = opt_payload(r)
     yof, tsec, tfrac = dt_parts(dt)
     Y, O = decode(o, yof, "")
-    back = o.call("DateTime::<Utc>::timestamp", o.ref(dt), name="timestamp")
-    sub = o.call("DateTime::<Utc>::timestamp_subsec_nanos", o.ref(dt), name="subsec")
+    back = o.call("DateTime::<Utc>::timestamp", o.ref(dt), name="timestamp", when=some)
+    sub = o.call("DateTime::<Utc>::timestamp_subsec_nanos", o.ref(dt), name="subsec", when=some)
     o.flat = [z3.If(some, 1, 0), z3.If(some, Y, 0), z3.If(some, O, 0), z3.If(some, tsec, 0), z3.If(some, tfrac, 0), z3.If(some, back.e, 0)]
     o.no_panic()
     day = secs.e / DAY + EPOCH
@@ -118,7 +118,7 @@ def _scaled(fn, unit, getter, probe_name):
             dt = opt_payload(r)
         yof, tsec, tfrac = dt_parts(dt)
         Y, O = decode(o, yof, "")
-        back = o.call("DateTime::<Utc>::" + getter, o.ref(dt), name="back")
+        back = o.call("DateTime::<Utc>::" + getter, o.ref(dt), name="back", when=some)
         if getter == "timestamp_nanos_opt":
             bsome, bval = opt_is_some(back), opt_payload(back).e
         else:
